@@ -554,6 +554,7 @@ pub struct Rows {
     pub invalid: BTreeSet<(String, String)>,
     pub bodies: BTreeMap<String, (String, String)>, // locator -> (blob hex, tsd)
     pub proofs: BTreeSet<String>,                   // tower ids
+    pub proof_details: BTreeMap<String, (String, String)>, // tower id -> (locator, recovered id)
     pub towers: BTreeSet<String>,
 }
 
@@ -563,7 +564,7 @@ pub fn read_rows(dir: &Path) -> Option<Rows> {
         return None;
     }
     let d = dump(&p);
-    let mut r = Rows { receipts: BTreeMap::new(), pending: BTreeSet::new(), invalid: BTreeSet::new(), bodies: BTreeMap::new(), proofs: BTreeSet::new(), towers: BTreeSet::new() };
+    let mut r = Rows { receipts: BTreeMap::new(), pending: BTreeSet::new(), invalid: BTreeSet::new(), bodies: BTreeMap::new(), proofs: BTreeSet::new(), proof_details: BTreeMap::new(), towers: BTreeSet::new() };
     for (t, c) in d {
         match t.as_str() {
             "appointment_receipts" => {
@@ -580,6 +581,9 @@ pub fn read_rows(dir: &Path) -> Option<Rows> {
             }
             "misbehaving_proofs" => {
                 r.proofs.insert(c[0].clone());
+                if c.len() >= 3 {
+                    r.proof_details.insert(c[0].clone(), (c[1].clone(), c[2].clone()));
+                }
             }
             "towers" => {
                 r.towers.insert(c[0].clone());
@@ -588,6 +592,30 @@ pub fn read_rows(dir: &Path) -> Option<Rows> {
         }
     }
     Some(r)
+}
+
+/// Is what the client persisted as the proof of a tower's misbehaviour a proof? The receipt stored for the proof's
+/// locator must carry a signature that does NOT verify under the tower's id and DOES verify under the recovered id
+/// stored with it.
+pub fn proof_problem(rows: &Rows, tid: &str, tower_id: &TowerId) -> Option<String> {
+    let (loc, recovered) = rows.proof_details.get(tid)?.clone();
+    let (user_sig, tower_sig, start) = match rows.receipts.get(&(loc.clone(), tid.to_string())) {
+        Some(r) => r.clone(),
+        None => return Some(format!("the proof row points at locator {loc} but no receipt is stored for it")),
+    };
+    let rc = AppointmentReceipt::with_signature(user_sig, start, tower_sig);
+    if rc.verify(tower_id) {
+        return Some(format!("the receipt persisted as proof (locator {loc}) is properly signed by the tower itself: it proves nothing"));
+    }
+    let rid = hex::decode(&recovered).ok().and_then(|b| TowerId::from_slice(&b).ok()).or_else(|| {
+        use std::str::FromStr;
+        TowerId::from_str(&recovered).ok()
+    });
+    match rid {
+        Some(rid) if rc.verify(&rid) => None,
+        Some(_) => Some(format!("the receipt persisted as proof (locator {loc}) does not verify under the recovered id stored with it")),
+        None => Some(format!("the recovered id stored with the proof is unreadable: {recovered}")),
+    }
 }
 
 /// For every answered revocation and every registered, non-misbehaving tower: exactly one durable record.
@@ -1084,8 +1112,14 @@ async fn scenario_c14(seed: u64, id: u64, base: &Path, r: &mut PropReport) {
                 r.inconclusive += 1;
                 continue;
             }
-            tower.state.lock().unwrap().add.push_back(beh.clone());
             let rev = revocation(&mut rng, case * 10 + 1);
+            if beh == Beh::WrongSig && rng.chance(1, 2) {
+                // the tower first acknowledges this very appointment properly; the misbehaviour comes with a repeated
+                // notification of the same revocation
+                let _ = plugin.revoke(&rev, HOOK_TIMEOUT).await;
+                r.count("misbehaviour_on_repeated_notification", 1);
+            }
+            tower.state.lock().unwrap().add.push_back(beh.clone());
             let res = plugin.revoke(&rev, HOOK_TIMEOUT).await;
             if res.is_err() {
                 r.violation(format!("C14:hook-unanswered:{}", bname.split(':').next().unwrap_or("")), format!("{ctx}: the notification got no answer ({res:?}); client alive: {}; stderr: {:?}", plugin.alive(), plugin.panic_text()), replay.clone());
@@ -1100,6 +1134,10 @@ async fn scenario_c14(seed: u64, id: u64, base: &Path, r: &mut PropReport) {
                 let status = lt.as_ref().and_then(|v| v.get(&tid)).and_then(|t| t.get("status")).and_then(|s| s.as_str()).unwrap_or("?").to_string();
                 if !has_proof || status != "misbehaving" {
                     r.violation("C14:misbehaviour-not-recorded", format!("{ctx}: after an acknowledgement signed by another key: proof persisted = {has_proof}, status = {status}"), replay.clone());
+                } else if let Some(why) = rows.as_ref().and_then(|x| proof_problem(x, &tid, &tower.id)) {
+                    r.violation("C14:persisted-proof-proves-nothing", format!("{ctx}: {why}"), replay.clone());
+                } else {
+                    r.count("misbehaviour_proofs_verified", 1);
                 }
                 let n0 = tower.state.lock().unwrap().log.len();
                 for k in 0..2 {
